@@ -37,8 +37,10 @@ def strategy(tier, phase):
     from vlib import rmodel
 
     edit = st.tuples(st.integers(0, 13), st.integers(0, 60), st.integers(0, 60), st.integers(0, 60)).map(list)
-    return st.fixed_dictionaries({"gen": st.sampled_from([2, 3, 3]), "tape": rmodel.tape_strategy(), "edits": st.lists(edit, max_size=4), "pass": st.integers(0, len(c05.PASSES) - 1),
-                                  "param": st.integers(0, 7), "fault": st.sampled_from([0, 0, 0, 1, 2, 3]), "functional": st.booleans(), "wrap": st.sampled_from([0, 0, 1, 2, 3])})
+    return st.fixed_dictionaries({"gen": st.sampled_from([2, 3, 4, 4]), "tape": rmodel.tape_strategy(), "edits": st.lists(edit, max_size=4), "pass": st.integers(0, len(c05.PASSES) - 1),
+                                  "param": st.integers(0, 7), "fault": st.sampled_from([0, 0, 0, 1, 2, 3]), "functional": st.booleans(), "wrap": st.sampled_from([0, 0, 1, 2, 3]),
+                                  # history of the pass OBJECT: it may have processed another model before (state left over from a previous call)
+                                  "prelude": st.one_of(st.just([]), st.just([]), rmodel.tape_strategy(100))})
 
 
 class Boom(Exception):
@@ -207,6 +209,13 @@ def execute(case):
         return dict(failures=_dd(fails), nontrivial=nontrivial, classes=classes)
     # ---- all other passes ---------------------------------------------------------------------------------
     p = c05.make_pass(pidx, param)
+    if case.get("prelude"):
+        try:
+            other, _ = rmodel.build(case["prelude"], case.get("gen", 1))
+            p(ir.from_proto(other))
+            classes.append("pass_object_used_before")
+        except Exception:
+            pass
     # functionalize() clones the model, and the cloner documents that it needs topologically sorted graphs
     functional = bool(case.get("functional")) and not c12.order_violations(_all_graphs(model))
     if functional:
